@@ -4,7 +4,9 @@ import (
 	"fmt"
 	"strings"
 	"sync"
+	"sync/atomic"
 	"testing"
+	gotime "time"
 	"unicode/utf8"
 
 	"github.com/jotaen/klog/klog"
@@ -118,28 +120,65 @@ func dumpParse(rs []klog.Record, bs []txt.Block, errs []txt.Error) string {
 	return fmt.Sprintf("records(%d,nil=%v):\n%sblocks(%d,nil=%v):\n%serrors(%d): %v", len(rs), rs == nil, dumpRecords(rs), len(bs), bs == nil, dumpBlocks(bs), len(errs), tuples(errs))
 }
 
-// schedule forces the arrival order of the batch results through the verif hook.
+// schedule forces the arrival order of the batch results through the verif hook: batch perm[0]
+// delivers first, then perm[1], and so on. It is best effort by design, so that it cannot wedge
+// an implementation that runs fewer (or more) batches than workers were asked for: when the batch
+// whose turn it is has not shown up within a grace period while others are waiting, its turn is
+// skipped (it may deliver whenever it arrives); batch indices outside perm pass freely. The oracle
+// (parallel == serial) does not depend on the order that is finally realised.
 type schedule struct {
-	mu   sync.Mutex
-	cond *sync.Cond
-	perm []int
-	turn int
+	mu      sync.Mutex
+	perm    []int
+	pos     map[int]int // batch index -> rank in perm
+	turn    int
+	changed chan struct{}
+	skips   int
 }
 
+const scheduleGrace = 30 * gotime.Millisecond
+
+var scheduleSkips int64 // number of skipped turns (statistics)
+
 func installSchedule(perm []int) {
-	s := &schedule{perm: perm}
-	s.cond = sync.NewCond(&s.mu)
+	s := &schedule{perm: perm, pos: map[int]int{}, changed: make(chan struct{})}
+	for rank, i := range perm {
+		s.pos[i] = rank
+	}
+	bump := func() { // with s.mu held
+		close(s.changed)
+		s.changed = make(chan struct{})
+	}
 	engine.VerifSchedule.Before = func(i int) {
 		s.mu.Lock()
-		for s.turn < len(s.perm) && s.perm[s.turn] != i {
-			s.cond.Wait()
+		for {
+			rank, known := s.pos[i]
+			if !known || rank <= s.turn || s.turn >= len(s.perm) {
+				s.mu.Unlock()
+				return
+			}
+			ch, seen := s.changed, s.turn
+			s.mu.Unlock()
+			select {
+			case <-ch:
+			case <-gotime.After(scheduleGrace):
+			}
+			s.mu.Lock()
+			if s.turn == seen && ch == s.changed {
+				// nothing happened for the whole grace period: the awaited batch is not coming
+				// (or is very slow); give its turn away
+				s.turn++
+				s.skips++
+				atomic.AddInt64(&scheduleSkips, 1)
+				bump()
+			}
 		}
-		s.mu.Unlock()
 	}
 	engine.VerifSchedule.After = func(i int) {
 		s.mu.Lock()
-		s.turn++
-		s.cond.Broadcast()
+		if rank, known := s.pos[i]; known && rank == s.turn {
+			s.turn++
+			bump()
+		}
 		s.mu.Unlock()
 	}
 }
@@ -236,9 +275,15 @@ func checkC07(c caseC07) (Outcome, error) {
 			orders = append(orders, shuffled(n, uint64(c.Perm+n)))
 		}
 		for _, perm := range orders {
+			skipsBefore := atomic.LoadInt64(&scheduleSkips)
 			installSchedule(perm)
 			pr, pb, pe := parser.NewParallelParser(n).Parse(text)
 			clearSchedule()
+			if atomic.LoadInt64(&scheduleSkips) != skipsBefore {
+				out.Label("arrival-order-not-fully-realised")
+			} else {
+				out.Label("arrival-order-realised")
+			}
 			got := dumpParse(pr, pb, pe)
 			if got != want {
 				return out, fmt.Errorf("parallel(%d workers, arrival order %v) differs from serial\ntext: %s\n--- serial\n%s\n--- parallel\n%s", n, perm, quoteShort(text), trim(want), trim(got))
